@@ -940,6 +940,11 @@ def gen_pool(rng, m, k=None):
         if 0.5 <= fs <= 400:
             cands += [fs * 0.9, fs * 1.1]
             probes.append('srm_flip')
+            if rng.random() < 0.4:
+                # ... and the frequency at which radius and threshold agree
+                # to the last bit or so (0.001 m: 29.98 MHz)
+                cands.insert(rng.randrange(len(cands) + 1), float(repr(round(fs, 9))))
+                probes.append('srm_exact')
     if m.skin_sigma and m.radii and rng.random() < 0.5:
         r = rng.choice(m.radii)
         s = m.skin_sigma[0]
@@ -1017,6 +1022,12 @@ def gen_far(rng):
     elif r < 0.12:
         zen = [rng.choice([0, -90, 85]), rng.choice([5, 7.5, 0.1]), rng.randrange(5, 20)]
         azi = [rng.choice([0, 350, -45]), rng.choice([10, 120, 0.5]), rng.randrange(1, 6)]
+    elif r < 0.2:
+        # descending grids: from the horizon upwards, clockwise
+        if rng.random() < 0.7:
+            zen = [rng.choice([90, 80, 45]), -rng.choice([10, 15, 30, 45]), rng.randrange(2, 6)]
+        if rng.random() < 0.5:
+            azi = [rng.choice([360, 180, 90]), -rng.choice([30, 45, 90]), rng.randrange(2, 5)]
     pwr = rng.choice([None, None, 100.0, 1.5, 1e-6, 1e6])
     dist = rng.choice([0, 0, 1000.0, 25.0, 1e-3, 1e7])
     return [zen, azi, pwr, dist]
@@ -1193,7 +1204,7 @@ def gen_api_ops(rng, npool, nfar, nnear, maxops):
                 and not (len(op) > 2 and op[2] == 'x'):
             # Ctrl-C at a seeded call event inside the operation, then the
             # caller issues it again
-            op = op + [{'interrupt': int(10 ** rng.uniform(0, 3.4))}]
+            op = op + [{'interrupt': int(10 ** rng.uniform(0, 3.4)), 'exc': rng.choice(['kbd', 'mem'])}]
         st.apply(op)
         ops.append(op)
     # make sure the history ends observable
@@ -1224,15 +1235,24 @@ def gen_api_task(rng, maxops=24, env=None, kinds=None, model=None, pool=None):
         import copy
         tw = copy.deepcopy(nears[0])
         k = rng.randrange(3)
-        v = tw[rng.choice([0, 1])]
-        d = rng.choice([1.0, 0.5, 1e-3, 1e-3, 1e-5, 1e-7, 1e-9, 1e-12])
-        v[k] = v[k] + d if d >= 1e-3 else v[k] * (1 + d)
+        if rng.random() < 0.3 and len(set(tw[2])) > 1:
+            # the same scan line moved to another axis: same origin, same
+            # step, same number of points - another request
+            c = list(tw[2])
+            while c == list(tw[2]):
+                rng.shuffle(c)
+            tw[2] = c
+        else:
+            v = tw[rng.choice([0, 1])]
+            d = rng.choice([1.0, 0.5, 1e-3, 1e-3, 1e-5, 1e-7, 1e-9, 1e-12])
+            v[k] = v[k] + d if d >= 1e-3 else v[k] * (1 + d)
         nears = [nears[0], tw]
     ops = gen_api_ops(rng, len(pool), len(fars), len(nears), maxops)
     return dict(kind='api', builder='cli', argv=m.argv(), pool=pool, fars=fars,
                 nears=nears, ops=ops, template=m.template, env=m.env,
                 features=sorted(set(m.features)), probes=probes,
-                npulses=m.min_pulses() + 2 * len(m.geo), _model=m)
+                npulses=m.min_pulses() + 2 * len(m.geo), _model=m,
+                drop_results=rng.random() < 0.4)
 
 
 # ------------------------------------------------------------------ CLI task
@@ -1421,7 +1441,7 @@ def gen_cli_task(rng, maxops=8, env=None, kinds=None, model=None, pool=None):
                 p = c['argv'][c['argv'].index('--output-cmdline') + 1]
                 op.append({'torn': {p: rng.randrange(0, 40)}})
             elif rng.random() < 0.06:
-                op.append({'interrupt': int(10 ** rng.uniform(0.5, 4.2))})
+                op.append({'interrupt': int(10 ** rng.uniform(0.5, 4.2)), 'exc': rng.choice(['kbd', 'mem'])})
             ops.append(op)
         elif r < 0.72:
             m = c['model']
@@ -1914,14 +1934,23 @@ def big_plan(run_seed, tier='quick', kind=None, floor=False, huge=False):
         sched = [0] * len(ops) + [1] * len(ops)
     elif kind == 'grid':
         m = tiny_model(rng) if huge else gen_model(rng)
+        if floor:
+            # over two or three media (reflection point and medium per
+            # direction), a tiny structure so that the grid dominates
+            m = gen_model(rng, env=rng.choice(['real2', 'real3']), kinds=[],
+                          template=rng.choice(['monopole', 'inv_l', 'dipole']))
         pool, probes = gen_pool(rng, m, k=2)
-        ops = [['COMPUTE'], ['FAR', 0, 'r'], ['OBS_NUM'], ['SET_F', 1], ['COMPUTE'], ['FAR', 0, 'r'], ['OBS_NUM'],
+        # the same big grid once more with another azimuth start (a 3D
+        # pattern requested in two halves)
+        far_half = [list(far_big[0]), [far_big[1][0] + 180, far_big[1][1], far_big[1][2]], far_big[2], far_big[3]]
+        ops = [['COMPUTE'], ['FAR', 0, 'r'], ['OBS_NUM'], ['FAR', 2], ['OBS_NUM'], ['SET_F', 1], ['COMPUTE'],
+               ['FAR', 0, 'r'], ['OBS_NUM'],
                ['FAR', 1], ['OBS_REPORT', ['far-field', 'far-field-absolute']], ['SET_F', 0], ['COMPUTE'],
-               ['FAR', 1], ['OBS_NUM']]
+               ['FAR', 1], ['OBS_NUM'], ['FAR', 2], ['FAR', 0], ['OBS_NUM']]
         near_big = [[-5.0, -5.0, 0.5], [1.0, 1.0, 0.7], [11, 11, 9], None]      # 1089 points
         if rng.random() < 0.5:
             ops = ops + [['NEAR', 0], ['OBS_NUM'], ['SET_F', 1], ['COMPUTE'], ['NEAR', 0, 'r'], ['OBS_NUM']]
-        tasks.append(dict(kind='api', builder='cli', argv=m.argv(), pool=pool[:2], fars=[far_big, far_big2],
+        tasks.append(dict(kind='api', builder='cli', argv=m.argv(), pool=pool[:2], fars=[far_big, far_big2, far_half],
                           nears=[near_big], ops=ops, template=m.template, env=m.env,
                           features=sorted(set(m.features + ['big_grid'])), probes=probes + ['big_grid'],
                           npulses=m.min_pulses() + 2 * len(m.geo)))
@@ -2065,16 +2094,21 @@ def fault_floor_plans(base_seed, tier='quick'):
     cases.append(('early_report_then_compute', [['NEAR', 0], ['FAR', 0], ['SET_F', 1], ['REPORT_EARLY']] + obs))
     cases.append(('early_misc_then_compute', [['SET_F', 1], ['OBS_MISC', 5], ['OBS_CMDLINE']] + obs))
     for opk in ('SET_F', 'COMPUTE', 'FAR', 'NEAR'):
-        for at in (1, 4, 40, 400, 2500):
+        pts = [(at, 'kbd') for at in (1, 4, 40, 400, 2500)] + [(at, 'mem') for at in (2, 9, 90, 900)]
+        if opk == 'COMPUTE':
+            # a failing allocation anywhere in the matrix fill / solve
+            pts += [(at, 'mem') for at in (15, 25, 60, 150, 250, 600, 1500, 4000, 9000)]
+        for at, ex in pts:
+            flt = {'interrupt': at, 'exc': ex}
             if opk == 'SET_F':
-                ops = [['SET_F', 1, {'interrupt': at}], ['COMPUTE']]
+                ops = [['SET_F', 1, flt], ['COMPUTE']]
             elif opk == 'COMPUTE':
-                ops = [['SET_F', 1], ['COMPUTE', {'interrupt': at}]]
+                ops = [['SET_F', 1], ['COMPUTE', flt]]
             elif opk == 'FAR':
-                ops = [['FAR', 0, '', {'interrupt': at}]]
+                ops = [['FAR', 0, '', flt]]
             else:
-                ops = [['NEAR', 0, '', {'interrupt': at}]]
-            cases.append(('interrupt_%s_%d' % (opk, at), ops))
+                ops = [['NEAR', 0, '', flt]]
+            cases.append(('%s_%s_%d' % ('interrupt' if ex == 'kbd' else 'allocfail', opk, at), ops))
     # two continuations after the fault: the caller goes on to another
     # frequency first (nothing well-formed of the same kind in between), or
     # asks for fields at the present frequency first
@@ -2103,7 +2137,9 @@ def fault_floor_plans(base_seed, tier='quick'):
                               disk={}, tasks=[t], schedule=[0] * len(ops)))
     # command-line level: an interrupted / rejected invocation, then the same command line again
     for j, (kind, at) in enumerate([('interrupt', 30), ('interrupt', 600), ('interrupt', 6000), ('interrupt', 30000),
-                                    ('bad', 0), ('bad', 1), ('bad', 2), ('bad', 3)]):
+                                    ('bad', 0), ('bad', 1), ('bad', 2), ('bad', 3),
+                                    ('allocfail', 100), ('allocfail', 1000), ('allocfail', 3000), ('allocfail', 10000),
+                                    ('allocfail', 20000), ('allocfail', 45000)]):
         seed = base_seed * 1000003 + 985000 + j
         rng = random.Random(seed)
         m = gen_model(rng, env=rng.choice(['free', 'ideal', 'real2']))
@@ -2111,8 +2147,8 @@ def fault_floor_plans(base_seed, tier='quick'):
         argv = ['-f', repr(pool[0])] + m.argv() + field_args(rng, m, force=['far-field', 'near-field']) \
             + ['--output-cmdline', 'ff.txt']
         inc = float(repr(round(pool[1] - pool[0], 6)))
-        if kind == 'interrupt':
-            first = ['RUN', list(argv), {'interrupt': at}]
+        if kind in ('interrupt', 'allocfail'):
+            first = ['RUN', list(argv), {'interrupt': at, 'exc': 'kbd' if kind == 'interrupt' else 'mem'}]
         else:
             first = ['RUN_BAD', rng.choice(BAD_ARGVS)]
         ops = [['RUN', list(argv)], first, ['RUN', list(argv)], ['SWEEP', list(argv), inc, 2, rng.randrange(4)],
@@ -2377,6 +2413,11 @@ def twin_floor_plans(base_seed, tier='quick'):
             k = rng.randrange(3)
             w = rng.choice([0, 1])
             n1[w][k] = n1[w][k] * (1 + d)
+            if i % 3 == 2:
+                # ... or the same points-per-request moved to another axis
+                n0[2] = rng.choice([[3, 1, 1], [2, 3, 1], [1, 4, 2]])
+                n1 = copy.deepcopy(n0)
+                n1[2] = n0[2][1:] + n0[2][:1]
             f0 = gen_far(rng)
             f0[0][0] = f0[0][0] or 10
             f0[1][1] = f0[1][1] or 30
@@ -2390,7 +2431,7 @@ def twin_floor_plans(base_seed, tier='quick'):
             t = dict(kind='api', builder='cli', argv=m.argv(), pool=pool[:2], fars=[f0, f1], nears=[n0, n1],
                      ops=ops, template=m.template, env=m.env,
                      features=sorted(set(m.features + ['twin_floor'])), probes=probes,
-                     npulses=m.min_pulses() + 2 * len(m.geo))
+                     npulses=m.min_pulses() + 2 * len(m.geo), drop_results=(i % 2 == 0))
             plans.append(dict(version=1, run_seed=seed, tier=tier, floor=True, config='plain',
                               hist=env_side(rng, False, 'hist'), orac=env_side(rng, False, 'orac'),
                               disk={}, tasks=[t], schedule=[0] * len(ops)))
